@@ -104,6 +104,15 @@ impl<T> DiscHash for std::mem::Discriminant<T> {
     }
 }
 
+/// Keys of the violations of one execution that are not known findings.
+fn violation_keys(spec: &PropSpec, l: &Ledger, e: &[(String, String)], known: &Known) -> std::collections::BTreeSet<String> {
+    (spec.check)(l, e, spec)
+        .into_iter()
+        .map(|v| v.key)
+        .filter(|k| known.lookup(spec.id, k).is_none())
+        .collect()
+}
+
 pub fn ledger_digest(l: &Ledger) -> u64 {
     hash_of(&(&l.steps, &l.custom_log))
 }
@@ -292,6 +301,7 @@ pub fn run_check(spec: &PropSpec, args: &CheckArgs) -> i32 {
     let total_runs = args.runs.unwrap_or(if args.tier == "thorough" { spec.thorough_runs } else { spec.quick_runs });
     println!("VERIF_SEED={} property={} tier={} runs={} threads={}", args.seed, spec.id, args.tier, total_runs, args.threads);
 
+    let known0 = load_known(&args.verif_dir);
     let next = AtomicU64::new(0);
     let stop = AtomicBool::new(false);
     let merged: Mutex<Merged> = Mutex::new(Merged::default());
@@ -336,13 +346,24 @@ pub fn run_check(spec: &PropSpec, args: &CheckArgs) -> i32 {
                         // determinism: re-execute a sample of runs, from the seed and from the recorded plan
                         if run % 64 == 0 {
                             let d0 = ledger_digest(&ledger);
-                            let (l2, _) = run_one(spec, args.seed, run);
+                            // A difference is a harness error only if it matters: the code under test may itself be
+                            // order-nondeterministic in ways no property forbids (e.g. iterating a randomly seeded hash
+                            // map); two executions on which the oracle gives the same verdict are then merely counted.
+                            let (l2, e2) = run_one(spec, args.seed, run);
                             if ledger_digest(&l2) != d0 {
-                                local.nondeterminism.push(format!("run {} differs when re-executed from its seed", run));
+                                if violation_keys(spec, &ledger, &entries, &known0) == violation_keys(spec, &l2, &e2, &known0) {
+                                    local.stats.probe("nondeterministic_reexecution_without_violation");
+                                } else {
+                                    local.nondeterminism.push(format!("run {} differs when re-executed from its seed", run));
+                                }
                             }
                             let l3 = replay_entries(spec, &entries);
                             if ledger_digest(&l3) != d0 {
-                                local.nondeterminism.push(format!("run {} differs when replayed from its recorded plan", run));
+                                if violation_keys(spec, &ledger, &entries, &known0) == violation_keys(spec, &l3, &entries, &known0) {
+                                    local.stats.probe("nondeterministic_reexecution_without_violation");
+                                } else {
+                                    local.nondeterminism.push(format!("run {} differs when replayed from its recorded plan", run));
+                                }
                             }
                         }
                         let vs = (spec.check)(&ledger, &entries, spec);
@@ -455,12 +476,15 @@ pub fn run_check(spec: &PropSpec, args: &CheckArgs) -> i32 {
             return 2;
         }
         // the replay file must reproduce the violation in a fresh process
+        // (a few attempts: exact on deterministic code; tolerant if the code under test is not)
         let confirmed = match std::env::current_exe() {
-            Ok(exe) => std::process::Command::new(exe)
-                .args(["replay", &path, "--quiet"])
-                .status()
-                .map(|s| s.code() == Some(1))
-                .unwrap_or(false),
+            Ok(exe) => (0..4).any(|_| {
+                std::process::Command::new(&exe)
+                    .args(["replay", &path, "--quiet"])
+                    .status()
+                    .map(|s| s.code() == Some(1))
+                    .unwrap_or(false)
+            }),
             Err(_) => false,
         };
         if !confirmed {
